@@ -35,8 +35,10 @@ type c15Clone struct {
 	Fields []string `json:"fields"` // fields of the operation type that are populated (others stay zero)
 	Seed   int64    `json:"seed"`   // value choices
 	Tpl    []string `json:"tpl"`    // text fields that receive template text (clone:"template" fields: the clone must hold the rendered text)
-	X      string   `json:"x"`      // value of .x in the data
-	Wrap   string   `json:"wrap"`   // "" | opspec | action | children
+	// which template text (c15TplTexts) the Tpl fields receive; 0 = "pre-{{ .x }}-post"
+	TplKind int    `json:"tplKind,omitempty"`
+	X       string `json:"x"`    // value of .x in the data
+	Wrap    string `json:"wrap"` // "" | opspec | action | children
 	// fields (among Fields) configured with an EMPTY value: non-nil pointer to "" / false / 0 / empty slice,
 	// empty non-nil slice or map.  A non-nil pointer to an empty string is a configured value like any other.
 	Empty []string `json:"empty,omitempty"`
@@ -125,7 +127,7 @@ type c15FE struct {
 
 func init() {
 	register(&Prop{ID: "C15", Run: c15Run,
-		Rule: "operation types are enumerated by reflection from pipeline.OpSpec (recursively through pointed-to types); each is populated by kind (strings, *string, bool, []int, []string, maps, *ValOrRef / *AnyVal / ActionSpec / ChildActions decoded from YAML or built recursively) from a seed, cloned under a real ActionContext and compared field by field (nil/empty identified), bare and wrapped in OpSpec / ActionSpec / ChildActions — the wrapping value cloned directly and through a POINTER to it ((&spec).CloneWith(ctx), an equivalent entry point) —; slices are populated with 0..2 and with 3, 5, 6, 7, 9 elements; template cases put `{{ .x }}` into clone:\"template\" fields; configured-but-empty values (non-nil pointer to \"\" / false / 0 / empty slice, empty non-nil slices and maps) are populated per field, alone and next to all other fields; value-or-reference values are populated in both kinds and in the odd forms too (an immediate value that also has Ref set, a reference that also has Val set, an empty reference); template text also goes into text fields that are NOT tagged (string, *string, []string elements, *[]string elements, *ValOrRef: the clone may hold them verbatim or rendered) and every templated value is cloned twice under different data with a deep snapshot of the original (slice elements included) compared before/after, and the FIRST clone compared with what it was before the second one was made; FAILURE THEN SUCCESS: per text field of every operation type (and at random) the field holds a template that CANNOT be rendered — it parses and fails while it is being executed, after it has produced output (field of a scalar, undefined associated template, sprig's fail, index of a missing key; short and longer than 64 bytes), or it does not parse — while the other template fields hold templates that render, and/or the clone is preceded, in the same context, by the clone of another operation whose template cannot be rendered: the unrenderable text is kept as it is, every other field holds exactly the rendered text, and a plain log operation cloned afterwards holds its rendered message; exec cases run data-only specs (set, patch, template, log, abort, define+call, loop, forEach) as original and clone on equal data (the clone first: the original must still be what it was after the clone ran) and as forEach bodies; vor cases take one value-or-reference — decoded scalar, decoded {ref: …}, composite literal with Ref AND Val, decoded reference with Val set; Ref / Val from {empty, path of a leaf, missing path, `{{ .x }}` with .x possibly empty} (small scope exhaustively, then random) — on its own ((*ValOrRef).CloneWith) and as every *ValOrRef field of every operation type found by reflection, bare / in OpSpec / in ActionSpec: the clone is compared field by field (the unexported kind flag included; reflect.DeepEqual with the original when template-free), resolved on data where the path named by Ref holds something else than Val, and executed (export: which files are written with what content, log lines; forEach over a query: log lines) against the original; feach cases run a forEach over 2-3 items whose body (log, set, template, patch, exec `true` with an argument list, in operations or in a steps child) uses `{{ .<variable> }}` and compare outcome, data and logs with a fresh copy of the body cloned+executed per item, and with a second run of the same forEach value. Non-trivial: at least one field populated. distinct = distinct canonical case JSON.",
+		Rule: "operation types are enumerated by reflection from pipeline.OpSpec (recursively through pointed-to types); each is populated by kind (strings, *string, bool, []int, []string, maps, *ValOrRef / *AnyVal / ActionSpec / ChildActions decoded from YAML or built recursively) from a seed, cloned under a real ActionContext and compared field by field (nil/empty identified), bare and wrapped in OpSpec / ActionSpec / ChildActions — the wrapping value cloned directly and through a POINTER to it ((&spec).CloneWith(ctx), an equivalent entry point) —; slices are populated with 0..2 and with 3, 5, 6, 7, 9 elements; template cases put a template over the micro-fragment `{{ .x }}` into clone:\"template\" fields — the plain `pre-{{ .x }}-post` and (VALUE RANGE, per tagged field of every operation type and at random) texts with a `}}` BEFORE the first `{{` (nested JSON in a message, `odd}}key.{{ .x }}`), the action at the very beginning / end / twice, next to braces, dots, white space, non-ASCII text and line ends — with .x from {V, a.b, 7, empty, blank, `.`, `}}`, non-ASCII …}: the clone holds the text text/template renders (every `{{ .x }}` replaced, the rest literal); template-free texts are drawn from a pool that also holds paths beginning / ending with the separator or holding an empty segment (`.defaults`, `labels.`, `a..b`: an empty-named key is a key), names that differ from their cleaned / trimmed form, leading / trailing white space, letter-case twins, supplementary-plane characters, U+FFFD, syntax look-alikes, digit strings beyond 64 bits, the empty text, `}} {{`; configured-but-empty values (non-nil pointer to \"\" / false / 0 / empty slice, empty non-nil slices and maps) are populated per field, alone and next to all other fields; value-or-reference values are populated in both kinds and in the odd forms too (an immediate value that also has Ref set, a reference that also has Val set, an empty reference); template text also goes into text fields that are NOT tagged (string, *string, []string elements, *[]string elements, *ValOrRef: the clone may hold them verbatim or rendered) and every templated value is cloned twice under different data with a deep snapshot of the original (slice elements included) compared before/after, and the FIRST clone compared with what it was before the second one was made; FAILURE THEN SUCCESS: per text field of every operation type (and at random) the field holds a template that CANNOT be rendered — it parses and fails while it is being executed, after it has produced output (field of a scalar, undefined associated template, sprig's fail, index of a missing key; short and longer than 64 bytes), or it does not parse — while the other template fields hold templates that render, and/or the clone is preceded, in the same context, by the clone of another operation whose template cannot be rendered: the unrenderable text is kept as it is, every other field holds exactly the rendered text, and a plain log operation cloned afterwards holds its rendered message; exec cases run data-only specs (set, patch, template, log, abort, define+call, loop, forEach) as original and clone on equal data (the clone first: the original must still be what it was after the clone ran) and as forEach bodies; vor cases take one value-or-reference — decoded scalar, decoded {ref: …}, composite literal with Ref AND Val, decoded reference with Val set; Ref / Val from {empty, path of a leaf, missing path, `{{ .x }}` with .x possibly empty} (small scope exhaustively, then random) — on its own ((*ValOrRef).CloneWith) and as every *ValOrRef field of every operation type found by reflection, bare / in OpSpec / in ActionSpec: the clone is compared field by field (the unexported kind flag included; reflect.DeepEqual with the original when template-free), resolved on data where the path named by Ref holds something else than Val, and executed (export: which files are written with what content, log lines; forEach over a query: log lines) against the original; feach cases run a forEach over 2-3 items whose body (log, set, template, patch, exec `true` with an argument list, in operations or in a steps child) uses `{{ .<variable> }}` and compare outcome, data and logs with a fresh copy of the body cloned+executed per item, and with a second run of the same forEach value. Non-trivial: at least one field populated. distinct = distinct canonical case JSON.",
 		Assumptions: []string{"text/template + sprig is an external library: the model renders only the micro-fragment `{{ .x }}`; template-free = no `{{` … `}}` pair in any string (possiblyTemplate is false)",
 			"helpers safeRenderStrPointer/safeRenderStrSlice/safeCopyIntSlice/safeCloneValOrRef are classified by name by the extractor; their behaviour is validated only by this harness",
 			"operations with OS effects (exec, templateFile, import, export, env, ext, html2dom) are cloned and compared but not executed — except exec of the program `true` (no output, no files) in feach cases and export in vor cases (into a scratch directory under .work, which is also the working directory while the operation runs)"}})
@@ -361,7 +363,48 @@ func c15CV(v reflect.Value) W {
 
 // ---------------------------------------------------------------- population by kind
 
-var c15Strings = []string{"abc", "a.b.c", "x y", "{{", "}}", "{ x }", "ünï", "l1\nl2", "v1", "0"}
+// c15Strings: template-free texts (no `{{` that a `}}` follows).  VALUE RANGE: paths that begin or end with the
+// separator or hold an empty segment (an empty-named key is a key), names that differ from their cleaned / trimmed
+// form, leading / trailing white space of every kind, letter-case twins, non-ASCII incl. supplementary-plane
+// characters and U+FFFD, characters that look like syntax, digit strings beyond 64 bits, boolean / null
+// spellings, the empty text, a `}}` that comes BEFORE a `{{`.
+var c15Strings = []string{"abc", "a.b.c", "x y", "{{", "}}", "{ x }", "ünï", "l1\nl2", "v1", "0",
+	".defaults", "labels.", ".", "a..b", "..", " lead", "trail ", "\ttab", "nl\n", "\u00a0nbsp\u00a0", "a//b", "./a", "a/", "MaxConn", "maxconn",
+	"\U0001F680\U0001D6FC", "\ufffd", "12345678901234567890123", "9223372036854775808", "~", "#c", "!t", "a=b", "k: v", "[0]", "(x)", "\\", "TRUE", "f", "",
+	"}} {{", "{{ }", "{\"a\":{\"b\":1}} {{"}
+
+// c15TplTexts: template texts over the micro-fragment `{{ .x }}` (TplKind selects one; 0 = the plain one).  Every
+// one of them is a template — text/template renders it, each `{{ .x }}` replaced by the value of x and the rest
+// literal —, whatever stands around the actions: a `}}` BEFORE the first `{{` (nested JSON in a message), the
+// action at the very beginning / end, twice, next to braces, dots, white space, non-ASCII text, line ends.
+var c15TplTexts = []string{
+	"pre-{{ .x }}-post",
+	"{{ .x }}",
+	"result {\"a\":{\"b\":1}} for {{ .x }}",
+	"}} {{ .x }}",
+	"{{ .x }}{{ .x }}",
+	" {{ .x }}\t",
+	"{{ .x }}.name",
+	"name.{{ .x }}",
+	".{{ .x }}.",
+	"\u00fc\U0001F680-{{ .x }}-\U0001D6FC\ufffd",
+	"{ {{ .x }} }",
+	"a}b{c}}d {{ .x }} }",
+	"{{ .x }} }} {{ .x }}",
+	"l1\n{{ .x }}\r\nl3",
+	"#!~\\/:=[({{ .x }})]",
+	"odd}}key.{{ .x }}",
+}
+
+func c15TplText(kind int) string {
+	if kind < 0 {
+		kind = -kind
+	}
+	return c15TplTexts[kind%len(c15TplTexts)]
+}
+
+// c15Xs: values of .x — what `{{ .x }}` renders to
+var c15Xs = []string{"V", "a.b", "7", "", " ", ".", "x y", "\U0001F680", "}}", "T", "pre.", "W"}
 
 var c15ActionYaml = []string{
 	"log:\n  message: hello\n",
@@ -635,6 +678,10 @@ func c15Run(c *Ctx) {
 		}
 		for _, f := range tagged {
 			c.Do("clone", c15Clone{Op: n, Fields: all, Seed: r.Int63n(1 << 30), Tpl: []string{f}, X: pick(r, []string{"V", "a.b", "7"}), Wrap: pick(r, wraps)})
+			// every template text, in this field alone (the smallest case that shows a text that is not rendered)
+			for k := 1; k < len(c15TplTexts); k++ {
+				c.Do("clone", c15Clone{Op: n, Fields: []string{f}, Seed: r.Int63n(1 << 30), Tpl: []string{f}, TplKind: k, X: pick(r, c15Xs)})
+			}
 		}
 		if len(tagged) > 1 {
 			c.Do("clone", c15Clone{Op: n, Fields: all, Seed: r.Int63n(1 << 30), Tpl: tagged, X: "W", Wrap: pick(r, wraps)})
@@ -696,7 +743,10 @@ func c15Run(c *Ctx) {
 				}
 			}
 		}
-		cs := c15Clone{Op: n, Fields: fs, Seed: r.Int63n(1 << 30), Tpl: tpl, Empty: empty, X: pick(r, []string{"V", "a.b", "7", ""}), Wrap: pick(r, wraps)}
+		cs := c15Clone{Op: n, Fields: fs, Seed: r.Int63n(1 << 30), Tpl: tpl, Empty: empty, X: pick(r, c15Xs), Wrap: pick(r, wraps)}
+		if len(tpl) > 0 && r.Intn(2) == 0 {
+			cs.TplKind = r.Intn(len(c15TplTexts))
+		}
 		cs.Ptr = cs.Wrap != "" && r.Intn(3) == 0
 		if withBad {
 			cs.Bad, cs.BadKind = bad, r.Intn(len(c15BadTemplates))
@@ -787,7 +837,8 @@ func c15GenTplBody(r *rand.Rand, ref string) map[string]any {
 // c15GenSpec generates a data-only action spec in YAML-shaped JSON (template-free).
 func c15GenSpec(r *rand.Rand, depth int) map[string]any {
 	spec := map[string]any{}
-	paths := []string{"a", "a.b", "k1.c", "n.m", "b"}
+	// (paths that begin / end with the separator address an empty-named key: legal, and the clone's path is the same)
+	paths := []string{"a", "a.b", "k1.c", "n.m", "b", ".defaults", "labels.", "a..b", "A.b"}
 	plain := func() map[string]any {
 		return pick(r, []map[string]any{{"a": 1}, {"a": map[string]any{"b": "x"}, "k1": []any{1, 2}}, {"n": map[string]any{"m": map[string]any{"l": true}}}, {}})
 	}
@@ -1061,7 +1112,14 @@ func c15EvalClone(c *Ctx, p c15Clone) {
 	}
 	tplText := ""
 	if len(p.Tpl) > 0 {
-		tplText = "pre-{{ .x }}-post"
+		tplText = c15TplText(p.TplKind)
+		c.Dist(fmt.Sprintf("clone:template-text:%d", p.TplKind%len(c15TplTexts)))
+		if strings.Index(tplText, "}}") < strings.Index(tplText, "{{") {
+			c.Dist("clone:template-text:closing-delimiter-before-the-first-action")
+		}
+		if strings.ReplaceAll(tplText, "{{ .x }}", p.X) == "" {
+			p.X = "V" // (an empty rendering would make the expected construction fall back to pool values)
+		}
 	}
 	c.Dist("op:" + p.Op)
 	c.Dist("wrap:" + p.Wrap)
